@@ -45,7 +45,9 @@ class DifferConfig:
         """
         # Precedence: config[rules] > CLI > config[defaults] > default
         diff_rule = self._get_rule_for(node_coord)
-        if diff_rule:
+        if diff_rule and diff_rule.upper() in ArrayDiffOpts.get_names():
+            # The [rules] section is shared with Array-of-Hashes modes (like
+            # dpos, key, and deep), which are not Array modes.
             self.log.debug(
                 "DifferConfig::array_diff_mode:  Matched {}"
                 .format(diff_rule))
